@@ -32,6 +32,7 @@ from engine.common import DISCHARGED, REFUTED, UNKNOWN, REPO, Unit, ob
 PID = "C17"
 V = z3.DeclareSort("V")
 NONE = z3.Const("None", V)
+TRUTHY = z3.Function("truthy", V, z3.BoolSort())
 
 
 class Val:
@@ -46,9 +47,22 @@ class Val:
     def __repr__(self):
         return f"<{self.name}>"
 
-    # settings code may test truthiness of a flag's state (it does not today); fork if it does
+    # settings code may test truthiness of a value (it does not today): an uninterpreted predicate of the value, decided
+    # consistently along a path (both outcomes explored: a symbolic value may be falsy, e.g. 0.0 or False)
     def __bool__(self):
-        return sym.ctx().fork(f"truth({self.name})")
+        return sym.ctx().decide(TRUTHY(self.t))
+
+    # settings code may compare values (it does not today): two symbolic values may or may not be equal — both explored
+    def __eq__(self, o):
+        if o is self:
+            return True
+        return sym.ctx().decide(self.t == term(o))
+
+    def __ne__(self, o):
+        return not self.__eq__(o)
+
+    def __hash__(self):
+        return 0x5EED
 
 
 def term(x):
@@ -244,6 +258,8 @@ def check_simple(cname: str):
                         _frame(cx, f"{base}/round{rnd}/exit/frame", before, after, exempt=own)
 
             out.extend(_run(scenario, base, replay={"module": "contracts.C17", "func": "replay_simple", "args": [cname, list(s1), list(s2), list(isig)]}))
+            if sum(1 for o in out if o["status"] == REFUTED) >= 12:
+                return out  # enough failed obligations to report; the remaining signatures add nothing
     return out
 
 
@@ -382,20 +398,32 @@ def replay_simple(cname, s1none, s2none, instnone):
             after = {s: getattr(c, s) for s in slots}
             if after != before:
                 fails.append(f"history construct(early); with outer: with early: pass -> after exit {after} != before entry {before}")
+        # history 1b: the same, but the enclosing block already set the value the early context asks for (redundant entry)
+        early = mk(inner_v)
+        with mk(outer_v):
+            with mk(inner_v):
+                before = {s: getattr(c, s) for s in slots}
+                with early:
+                    pass
+                after = {s: getattr(c, s) for s in slots}
+                if after != before:
+                    fails.append(f"history construct(early={inner_v!r}); with ctx({outer_v!r}): with ctx({inner_v!r}): with early: pass -> after exit {after} != before entry {before}")
         # history 3: the context takes effect on entry, per slot (dtype contexts: only the slots that are given)
         if kind == "dtype":
             for kw, sl in (("float_value", "_global_float_value"), ("double_value", "_global_double_value"), ("half_value", "_global_half_value")):
-                before = {s_: getattr(c, s_) for s_ in slots}
-                with c(**{kw: 0.625}):
-                    now = {s_: getattr(c, s_) for s_ in slots}
-                    want = dict(before)
-                    want[sl] = 0.625
-                    if now != want:
-                        fails.append(f"history with {cname}({kw}=0.625): inside the block {now}, expected {want}")
+                for val in (0.625, 0.0):  # a falsy value is a value like any other
+                    before = {s_: getattr(c, s_) for s_ in slots}
+                    with c(**{kw: val}):
+                        now = {s_: getattr(c, s_) for s_ in slots}
+                        want = dict(before)
+                        want[sl] = val
+                        if now != want:
+                            fails.append(f"history with {cname}({kw}={val}): inside the block {now}, expected {want}")
         else:
-            with mk(inner_v):
-                if getattr(c, slots[0]) != inner_v:
-                    fails.append(f"history with {cname}({inner_v!r}): inside the block the value is {getattr(c, slots[0])!r}")
+            for val in ((inner_v, 0) if kind == "value" else (inner_v, not inner_v)):
+                with mk(val):
+                    if getattr(c, slots[0]) != val:
+                        fails.append(f"history with {cname}({val!r}): inside the block the value is {getattr(c, slots[0])!r}")
         # history 2: slot unset (None) before entry
         for s in slots:
             setattr(c, s, None)
